@@ -50,7 +50,7 @@ add("F10", ["C13"], "C13.trivia|loss|compiler::parser::preparser::preparse|clear
 add("F8", ["C04"], 'C04.belief|site|compiler::typing::InferContext::infer_type|unimplemented|unimplemented!("Assignment to array is not implemented yet.")', "`a[0] = 3.0`: unimplemented! inside the type checker (a syntactically valid text crashes the front end)")
 
 # ---- C05 -------------------------------------------------------------------------------------------------
-add("F17", ["C05"], "C05.order|concat|compiler::mirgen::Context::eval_expr|Feed|call+cell", "`self` cell: GetState is emitted before the body is evaluated (offset 0 of the function's state) but its skeleton is appended after the body's cells: published layout [Mem, Feed] vs executed getstate@0; mem@1 (fn dsp(){ let y = mem(1.0); self + y })")
+add("F17", ["C05", "C07"], "C05.order|concat|compiler::mirgen::Context::eval_expr|Feed|call+cell", "`self` cell: GetState is emitted before the body is evaluated (offset 0 of the function's state) but its skeleton is appended after the body's cells: published layout [Mem, Feed] vs executed getstate@0; mem@1 (fn dsp(){ let y = mem(1.0); self + y })")
 add("F18", ["C05"], "C05.accounting|push|compiler::mirgen::Context::eval_expr|x2", "`if` branches: the padding PushStateOffset is not accounted in push_sum and the bookkeeping is not bracketed around the branches: stateful calls of different sizes in the two branches underflow the VM state cursor (panic in pop_pos), WASM keeps running")
 add("F18", ["C05"], "C05.accounting|push|compiler::mirgen::Context::eval_union_match|x2", "`match` arms: same unaccounted padding; findings/repro/F18_match_branches.mmm panics the VM with `attempt to subtract with overflow` in pop_pos while WASM runs")
 
